@@ -188,7 +188,7 @@ class C19(Check):
         "the trace side file may be named <out>.trace or <out>..trace (linker_trace::trace_path)",
         "nlink/ctime of inputs are not compared (a save directory hard-links inputs)",
     ]
-    quick_cases = 400
+    quick_cases = 320
     thorough_cases = 10000
     max_workers = 12
 
